@@ -15,7 +15,7 @@ Fixpoint olen_lookup (t : otable) (name : bytes) (k : okind) (pos : Z) : olen_re
       if beq n name && okind_eqb k k' && (pos =? p') then r else olen_lookup rest name k pos
   end.
 
-Record rloc := mkRLoc { rl_name : bytes; rl_index : Z; rl_line : Z; rl_col : Z }.
+Record rloc := mkRLoc { rl_name : bytes; rl_index : Z; rl_line : Z; rl_col : Z; rl_quote : option bytes }.
 
 Record rerr := mkRErr {
   re_fmt : string; re_args : list bytes; re_suffix : list rloc;
@@ -24,8 +24,8 @@ Record rerr := mkRErr {
 
 Definition render_loc (files : list (bytes * bytes)) (f : N) (i : Z) : rloc :=
   match nth_error files (N.to_nat f) with
-  | Some (n, c) => let '(l, col) := line_and_column c i in mkRLoc n i l col
-  | None => mkRLoc [] i 0 0
+  | Some (n, c) => let '(l, col) := line_and_column c i in mkRLoc n i l col (quote c i)
+  | None => mkRLoc [] i 0 0 None
   end.
 
 Definition render_err (files : list (bytes * bytes)) (e : cerr) : rerr :=
